@@ -5,6 +5,7 @@ import PyamgV.Proofs.C04Check
 import PyamgV.Proofs.C04Limits
 import PyamgV.Proofs.C04Compose
 import PyamgV.Proofs.ExtC04Steps
+import PyamgV.Proofs.ExtSpmmMat
 
 /-! # C04 — hierarchy structure: Galerkin coarse operators and coarsening limits
 
@@ -94,7 +95,61 @@ restate levels_bounded_by_rows := PyamgV.ExtC04.build_length_le
 /-- the measure that decreases may differ from the size the `while` condition looks at -/
 restate sizes_decrease_in_measure := PyamgV.ExtC04.build_measure_decreasing
 
+/-! ### the sparse algebra behind `A_c = R A P` (extension E27): `Model/ExtSpmm.lean` is an executable model
+of what the constructors delegate to `scipy.sparse` -- `R @ A @ P` (`Spmm.mul`: `csr_matmat` with its dense
+accumulator and linked list, duplicates summed, exact zeros dropped, output unsorted), `P.T.tocsr()`
+(`Spmm.transpose`), `.conjugate()` (`Spmm.mapVals`, `Spmm.conjT`).  `Csr.val A i j` is the dense meaning
+(the sum of the stored entries of row `i` with column index `j`); `denseOf m n f` the Mathlib matrix.
+The driver runs these functions over the Gaussian rationals (`ext_spmm`, instances `mulC` ...), the
+harness compares them with `scipy.sparse` on the level operators of the generated hierarchies: array by
+array on a dyadic grid, and `A_c` of every level with the exact model product of the stored `R`, `A`, `P`. -/
+/-- `val (mul A B) = val A * val B`: the product model computes the matrix product of the dense meanings -/
+restate spmm_product := PyamgV.Spmm.mat_mul
+/-- the same entry by entry (any `i`, `j`; rows beyond the shape are zero) -/
+restate spmm_product_entry := PyamgV.Spmm.val_mul'
+/-- the product of well-formed operands is a well-formed CSR matrix (so products chain) -/
+restate spmm_product_wf := PyamgV.Spmm.mul_wf
+/-- `P.T.tocsr()`: the transpose model transposes the dense meaning -/
+restate spmm_transpose := PyamgV.Spmm.mat_transpose
+/-- one definition: the array version of the transpose (`transposeArr` = `csr_tocsc` loop by loop: count per
+column, exclusive cumulative sum, scatter with a moving pointer per column -- a stable counting sort) returns
+row by row exactly the entries the functional model returns; the driver runs both against SciPy's arrays -/
+restate spmm_transpose_arrays := PyamgV.Spmm.transposeArr_row
+/-- ... hence it transposes the dense meaning too -/
+restate spmm_transpose_arrays_meaning := PyamgV.Spmm.val_transposeArr
+/-- `P.T.conjugate()`: conjugate transpose, for any additive `conj` fixing 0 -/
+restate spmm_conj_transpose := PyamgV.Spmm.mat_conjT
+/-- the Galerkin operator computed by the model, `(R @ A) @ P`, is the triple product `R A P` -/
+restate spmm_galerkin := PyamgV.Spmm.mat_galerkin
+/-- with `R = P.T.tocsr()` computed by the model: `A_c = Pᵀ A P` -/
+restate spmm_galerkin_symmetric := PyamgV.Spmm.mat_galerkin_transpose
+/-- the instances the driver executes (`ext_spmm galerkin / transpose / conjT`), entry form -/
+restate spmm_driver_galerkin := PyamgV.Spmm.CRatInst.valC_galerkinC
+restate spmm_driver_transpose := PyamgV.Spmm.CRatInst.valC_transposeC
+restate spmm_driver_transpose_arrays := PyamgV.Spmm.CRatInst.transposeArrC_row
+restate spmm_driver_conj_transpose := PyamgV.Spmm.CRatInst.valC_conjTC
+/-- the dense array the driver prints holds the dense meaning row-major -/
+restate spmm_driver_dense := PyamgV.Spmm.CRatInst.toDenseC_get
+/-- tie to the checker: the dense reference product `R (A P)` that `chkGalerkin` / `PairOK.galerkin`
+compare `A_c` with is the dense meaning of the sparse product `(R @ A) @ P` of the model -/
+restate spmm_checker_product := PyamgV.Spmm.CRatInst.checker_product_eq_model
+
 /-! non-vacuity -/
+section spmm_examples
+open PyamgV.Spmm
+/-- `A = [[1, 2, 0], [0, 0, 3], [4, 0, 5]]`, `B = [[0, 1, -2], [0, 0, 1], [7, 0, 0]]` in CSR -/
+def spA : Csr CRat := ⟨3, 3, #[0, 2, 3, 5], #[0, 1, 2, 0, 2], #[⟨1,0⟩, ⟨2,0⟩, ⟨3,0⟩, ⟨4,0⟩, ⟨5,0⟩]⟩
+def spB : Csr CRat := ⟨3, 3, #[0, 2, 3, 4], #[1, 2, 2, 0], #[⟨1,0⟩, ⟨-2,0⟩, ⟨1,0⟩, ⟨7,0⟩]⟩
+example : spA.wf = true ∧ spB.wf = true := by decide
+-- what SciPy returns for `A @ B`: the cancelled entry (0, 2) is dropped, row 2 is unsorted
+example : (mulC spA spB).ap = #[0, 1, 2, 5] ∧ (mulC spA spB).aj = #[1, 0, 0, 2, 1] := by decide +kernel
+example : (mulC spA spB).ax = #[⟨1,0⟩, ⟨21,0⟩, ⟨35,0⟩, ⟨-8,0⟩, ⟨4,0⟩] := by decide +kernel
+example : (transposeC spA).aj = #[0, 2, 0, 1, 2] ∧ (transposeArrC spA).aj = #[0, 2, 0, 1, 2] := by decide +kernel
+-- the hierarchy of the checker examples, stored sparse: `R @ A @ P = [2]`
+def spA2 : Csr CRat := ⟨2, 2, #[0, 2, 4], #[0, 1, 0, 1], #[⟨2,0⟩, ⟨-1,0⟩, ⟨-1,0⟩, ⟨2,0⟩]⟩
+def spP2 : Csr CRat := ⟨2, 1, #[0, 1, 2], #[0, 0], #[⟨1,0⟩, ⟨1,0⟩]⟩
+example : toDenseC (galerkinC (transposeC spP2) spA2 spP2) = #[⟨2,0⟩] := by decide +kernel
+end spmm_examples
 -- sizes 100, 20, 3, 1 observed; max_levels 10, max_coarse 2: stops at size 1 because it is small enough
 example : runTrace 10 2 #[100, 20, 3, 1] = some ([100, 20, 3, 1], .smallEnough, 3) := by decide
 -- max_levels 2 cuts the same outcomes after two levels
